@@ -197,7 +197,7 @@ def run(tier, seed, replay):
         # every calling context x every call form (complete), then random repetitions with other registrations and inputs
         combos = [(ctx, call) for ctx in CONTEXTS for call in CALLS]
         pathy = [jqgen.V(x) for x in PATHY]
-        for k in range(len(combos) + (200 if quick else 12000)):
+        for k in range(len(combos) + (200 if quick else 30000)):
             regs, iregs = r.choice(regsets), r.choice([[[0, 3, "I"]], [[0, 1, "I"], [1, 3, "J"]], [[0, 3, "I"], [2, 2, "K"]]])
             ctx, call = combos[k] if k < len(combos) else (r.choice(CONTEXTS), r.choice(CALLS))
             src = ctx.replace("%s", call)
@@ -238,7 +238,7 @@ def run(tier, seed, replay):
         ucases = []
         optpool = [["func", 0, 0, "A"], ["func", 1, 1, "B"], ["func", 0, 0, "C"], ["func", 0, 2, "D"], ["func", 2, 3, "E"], ["iter", 0, 2, "I"], ["iter", 2, 3, "J"], ["iter", 0, 0, "K"], ["vars", 0, 0, "v"], ["env", 0, 0, "e"]]
         srcs = ["[cf, cf(1)]", "cf", "cf(1)", "[cf(1; 2)]", "[cfi]", "[cfi(1; 2)]", "[cfi(1; 2; 3)]", "builtins | map(select(startswith(\"cf\"))) | sort", "[cf?, cfi?]", "try cf(1; 2; 3) catch \"e\"", "$v", "env.K", "[cf, $v, env.K]"]
-        for _ in range(150 if quick else 4000):
+        for _ in range(150 if quick else 10000):
             opts = r.sample(optpool, r.randrange(2, 6))
             steps = []
             for _ in range(r.randrange(2, 5)):
@@ -259,7 +259,7 @@ def run(tier, seed, replay):
         for c in r.sample(cor, 60 if quick else len(cor)) if False else []:
             pass
         names2 = [n for n in json.loads(vc.sh([gojq, "-nc", "builtins"]).stdout) if n.rsplit("/", 1)[0] not in EXCEPT]
-        for _ in range(200 if quick else 5000):
+        for _ in range(200 if quick else 15000):
             n, ar = r.choice(names2).rsplit("/", 1)
             src = ".[0] as $x | .[1] as $a | $x | try " + n + ("(" + "; ".join(["$a"] * int(ar)) + ")" if int(ar) else "") + ' catch "err"'
             hcases.append({"id": len(hcases), "k": "history", "src": src, "input": {"t": "arr", "a": [r.choice(uni), r.choice(uni)]}, "other": {"t": "arr", "a": [r.choice(uni), r.choice(uni)]}})
